@@ -50,6 +50,8 @@ ASSUMPTIONS = [
     "in module I/O tags Name[:slot]:Kind (kind beginning with I, O, C or S); a structure without ';' in its name has a "
     "predefined-range template id; a visible LEN/DATA pair with DATA a SINT array has LEN a DINT (a string type)",
     "info['modules'] is not part of the statement and is not modelled",
+    "several uploads on one driver: the model threads the driver state (caches, info, _data_types) from call to call; "
+    "get_tag_list(program=P) shows P's tags (drv.tags holds that scope only) with their definitions",
     "external access is compared only from firmware 18 on (attribute 10 does not exist before)",
 ]
 
@@ -494,6 +496,191 @@ def run_project(R, tp, tpv, mp, sc, label, n_variants, rng, hist="uploads", deta
         compare_with_model(R, "upload", case, m, "done", up.requests, trees, canon(js) if (ok and full) else None, ok)
         up.close()
     return n
+
+
+# ------------------------------------------------------------------ several uploads on one driver (project changes in between)
+STALE_CLS = "reupload: data_types keeps a definition that is no longer in the controller"
+
+
+def reid(rng, b, a):
+    """give the templates of project `b` the template ids of project `a` (as far as there are any of
+    the same id range): the controller now holds ANOTHER definition behind the same template id"""
+    def pre(i):
+        return i < 0x100 or i > 0xEFF
+    pool = {True: [t["id"] for t in a.templates if pre(t["id"])], False: [t["id"] for t in a.templates if not pre(t["id"])]}
+    for k in pool:
+        rng.shuffle(pool[k])
+    own = {t["id"] for t in b.templates}
+    mapping = {}
+    for t in b.templates:
+        k = pre(t["id"])
+        while pool[k]:
+            i = pool[k].pop()
+            if i not in own or i == t["id"]:
+                mapping[t["id"]] = i
+                own.add(i)
+                break
+    for t in b.templates:
+        t["id"] = mapping.get(t["id"], t["id"])
+        for mm in t["members"]:
+            if mm["kind"] == "s":
+                mm["code"] = mapping.get(mm["code"], mm["code"])
+        for mm in t["members"]:      # hidden host names carry the id in the generator: keep them hosts
+            pass
+    for g in b.tags:
+        if g["kind"] == "s":
+            g["code"] = mapping.get(g["code"], g["code"])
+    return len(mapping)
+
+
+def sent_requests(frames):
+    out = []
+    for f in frames:
+        if len(f) > 48 and f[0] == 0x70:
+            svc, words = f[46], f[47]
+            out.append((svc, bytes(f[48:48 + 2 * words]), bytes(f[48 + 2 * words:])))
+        else:
+            out.append((-1, b"", bytes(f)))
+    return out
+
+
+class _Stub:
+    def __init__(self, tags, rev):
+        self.tags, self.data_types, self.info, self.revision_major = tags, {}, {}, rev
+
+
+def diff_program_call(view, drv, prog):
+    """get_tag_list(program=P): drv.tags holds P's tags only; definitions are compared through the tags"""
+    pre = f"Program:{prog}."
+    v = dict(view, tags={n: t for n, t in view["tags"].items() if n.startswith(pre)})
+    out = RV.diff_upload(v, _Stub(drv.tags, drv.revision_major), program_tags=True)
+    return [d for d in out if not d.startswith(("data_types", "info["))]
+
+
+def model_scriptseq(mp, rev, calls, fuel=200000, detail=1):
+    line = f"scriptseq {rev} {fuel} {detail}"
+    for arg, frames in calls:
+        a = "none" if arg == "none" else "star" if arg == "star" else fw.t_bytes(arg.encode("latin-1"))
+        line += " || " + a + "".join(" | " + fw.t_bytes(f) for f in frames if f is not None)
+    gs = groups(fw.parse_line(mp.ask_raw(line)))
+    out = {"kind": str(gs[0][0]), "requests": [], "trees": {}}
+    for g in gs[1:]:
+        k = str(g[0])
+        if k == "rq":
+            out["requests"].append((g[1], bytes(g[2]), bytes(g[3])))
+        elif k == "ser":
+            out["ser"] = bool(g[1])
+        else:
+            out["trees"][k] = parse_py(g, 1)[0]
+    return out
+
+
+def run_reupload(R, tp, tpv, mp, rng, label):
+    """project A, then project A' behind the SAME template ids in the same live target, uploaded again by
+    the SAME driver: every call must show the project the controller holds at that moment"""
+    from pycomm3 import LogixDriver
+    a = S.gen_scenario(rng, n_tags=rng.randint(3, 9), policies=False)
+    b = S.gen_scenario(rng, n_tags=rng.randint(3, 9), policies=False)
+    shared = reid(rng, b, a)
+    rev = rng.choice([17, 18, 20, 21, 24, 32])
+    for sc in (a, b):
+        sc.cfg["rev_major"] = rev
+        sc.policy["page"] = rng.choice([[], [2], [5]])
+        sc.policy["tmpl"] = rng.choice([[], [40], [9]])
+    flow = rng.choice(["get_tag_list twice", "get_tag_list twice", "open close open", "program calls"])
+    case = {"label": label, "flow": flow, "rev": rev, "project": scenario_to_json(a), "project2": scenario_to_json(b), "shared_ids": shared}
+    R.case({"label": label, "flow": flow, "shared": shared})
+    R.count("re-upload flows", flow)
+    R.count("re-upload: template ids holding another definition", min(shared, 8))
+    load(tpv, b)
+    view_b = RV.view(tpv)
+    load(tpv, controller_only(b))
+    view_b_none = RV.view(tpv)
+    load(tp, a)
+    calls = []              # (arg, first sent index, last) for the correspondence
+    steps = []
+
+    def oracle_full(drv, arg, where):
+        view = view_b if arg == "star" else view_b_none
+        for d in RV.diff_upload(view, drv, program_tags=(arg == "star"))[:8]:
+            if d.startswith("data_types[") and d.endswith("not a structure reachable from the user tags"):
+                R.fail("data_types lists a structure the controller no longer has", dict(case, diff=d, step=where), d, "no difference", STALE_CLS)
+            else:
+                R.fail("a later upload does not show the controller's current project", dict(case, diff=d, step=where), d, "no difference",
+                       "reupload " + flow)
+        try:
+            json.dumps(drv.tags_json)
+        except Exception as e:      # noqa: BLE001
+            R.fail("tags_json is not JSON-serialisable", dict(case, step=where), repr(e), "json.dumps succeeds", "reupload " + flow)
+
+    drv = None
+    try:
+        with alarm(90):
+            if flow == "open close open":
+                drv = T.open_driver(LogixDriver, "10.0.0.1", tp)
+                fs = drv.fakesock
+                m0 = next(i for i, f in enumerate(fs.sent) if len(f) > 46 and f[0] == 0x70 and f[46] == 0x55)
+                e0 = len(fs.sent)
+                calls.append(("star", m0, e0))
+                drv.close()
+                tp.lines(b.cfg_lines())
+                tp.lines(b.lines())
+                n1 = len(fs.sent)
+                drv.open()
+                m1 = next(i for i, f in enumerate(fs.sent) if i >= n1 and len(f) > 46 and f[0] == 0x70 and f[46] == 0x55)
+                calls.append(("star", m1, len(fs.sent)))
+                oracle_full(drv, "star", "second open()")
+            elif flow == "get_tag_list twice":
+                arg1, arg2 = rng.choice(["star", "none"]), rng.choice(["star", "star", "none"])
+                drv = T.open_driver(LogixDriver, "10.0.0.1", tp, init_tags=False)
+                fs = drv.fakesock
+                for k, (sc, arg) in enumerate(((a, arg1), (b, arg2))):
+                    if k == 1:
+                        tp.lines(b.lines())
+                    m = len(fs.sent)
+                    drv.get_tag_list(program={"star": "*", "none": None}[arg])
+                    calls.append((arg, m, len(fs.sent)))
+                oracle_full(drv, arg2, "second get_tag_list")
+            else:
+                drv = T.open_driver(LogixDriver, "10.0.0.1", tp, init_tags=False)
+                fs = drv.fakesock
+                for k, sc in enumerate((a, b)):
+                    if k == 1:
+                        tp.lines(b.lines())
+                    m = len(fs.sent)
+                    drv.get_tag_list(program=None)
+                    calls.append(("none", m, len(fs.sent)))
+                    for prog in sorted({g["prog"] for g in sc.tags if g["prog"] is not None}):
+                        m = len(fs.sent)
+                        drv.get_tag_list(program=prog)
+                        calls.append((prog, m, len(fs.sent)))
+                        if k == 1:
+                            for d in diff_program_call(view_b, drv, prog)[:6]:
+                                R.fail("a later upload does not show the controller's current project", dict(case, diff=d, step=f"get_tag_list({prog!r})"),
+                                       d, "no difference", "reupload " + flow)
+                            R.count("re-upload: program-scope calls checked", 1)
+    except Timeout:
+        R.fail("the upload hangs", case, "TIMEOUT", "a result", "reupload " + flow)
+        return
+    except Exception as e:          # noqa: BLE001
+        R.fail("the upload raised", case, f"{type(e).__name__}: {e} / {e.__cause__!r}", "a result", "reupload " + flow)
+        return
+    # correspondence: the model runs the same calls on one state, fed the frames each call received
+    fs = drv.fakesock
+    m = model_scriptseq(mp, rev, [(arg, fs.replies[i:j]) for arg, i, j in calls])
+    R.corr_checked += 1
+    requests = [r for _, i, j in calls for r in sent_requests(fs.sent[i:j])]
+    try:
+        js = drv.tags_json
+        json.dumps(js)
+        jt, jok = canon(js), True
+    except Exception:               # noqa: BLE001
+        jt, jok = None, False
+    compare_with_model(R, "re-upload (" + flow + ")", case, m, "done", requests, driver_trees(drv), jt, jok)
+    try:
+        drv.close()
+    except Exception:               # noqa: BLE001
+        pass
 
 
 # ------------------------------------------------------------------ malformed stream (replay)
@@ -985,6 +1172,8 @@ def run(R, escalate=False):
             if c.get("kind") == "scenario":
                 sc = scenario_from_json(c)
                 run_project(R, tp, tpv, mp, sc, "corpus:" + name, 4, random.Random(1), hist="corpus uploads")
+            elif c.get("kind") == "reupload":
+                run_reupload(R, tp, tpv, mp, random.Random(c["seed"]), "corpus:" + name)
             elif c.get("kind") == "frames":
                 run_replay(R, mp, c["rev"], c["arg"], [bytes.fromhex(x) for x in c["frames"]], {"corpus": name}, "corpus replay")
         n_projects = 380 if thorough else 28
@@ -1008,6 +1197,10 @@ def run(R, escalate=False):
                 if up.error is None:
                     recorded.append((rev, up.frames, seed))
                 up.close()
+        # several uploads on one driver, the controller's project changing in between
+        for k in range(400 if thorough else 14):
+            seed = rng.randrange(1 << 30)
+            run_reupload(R, tp, tpv, mp, random.Random(seed), f"reupload seed {seed}")
         # malformed stream
         n_mut = 6000 if thorough else 220
         for k in range(n_mut):
@@ -1097,7 +1290,12 @@ def replay(R, rp):
     tp = T.TargetProc("target")
     tpv = T.TargetProc("target")
     try:
-        if "project" in case:
+        if case.get("kind") == "reupload" or "flow" in case:
+            seed = case.get("seed")
+            if seed is None:
+                seed = int(str(case.get("label", "0")).split()[-1])
+            run_reupload(R, tp, tpv, mp, random.Random(seed), f"reupload seed {seed}")
+        elif "project" in case:
             sc = scenario_from_json(dict(case["project"], policy=case.get("policy", {})))
             sc.cfg["rev_major"] = case.get("rev", 32)
             sc.cfg["accept_large_fo"] = case.get("large", 1)
